@@ -50,8 +50,29 @@ func (P) Facts() []core.Fact {
 	return fs
 }
 
+// Exec runs one line under a watchdog: a (mutated) tree that blocks, e.g. on
+// the write lock or in a cursor loop, yields the answer "timeout" instead of
+// hanging the run.
 func (p P) Exec(line string) string {
-	out := p.exec(line)
+	done := make(chan string, 1)
+	go func() {
+		defer func() {
+			if r := recover(); r != nil {
+				done <- "panic"
+			}
+		}()
+		done <- p.exec(line)
+	}()
+	limit := 120 * time.Second
+	if strings.HasPrefix(line, "C05 racebuild") {
+		limit = 15 * time.Minute
+	}
+	var out string
+	select {
+	case out = <-done:
+	case <-time.After(limit):
+		out = "timeout"
+	}
 	if os.Getenv("VERIF_ECHO") != "" {
 		fmt.Fprintf(os.Stderr, "GO %s\n", out)
 	}
